@@ -403,8 +403,9 @@ def wrap_rule(ctx, r):
     for name, t, fl in (("line_anchor_start", "StartCRLF", "StartLF"), ("line_anchor_end", "EndCRLF", "EndLF")):
         g = facts.fn(CHIR + "::" + name)
         tail = H.tail_expr(g.hir)
-        a = H.decide(tail, {"self.config.crlf": True})
-        b = H.decide(tail, {"self.config.crlf": False})
+        envg = H.LetEnv(g.hir)
+        a = H.decide(tail, {"self.config.crlf": True}, envg)
+        b = H.decide(tail, {"self.config.crlf": False}, envg)
         if (a, b) == (LOOK + t, LOOK + fl):
             r.ok(name, "crlf → %s, else %s" % (t, fl), fn=g)
         else:
